@@ -37,11 +37,20 @@ type Config struct {
 	// PersisterContent: the per-request client creates the state and cache objects itself and hands them to the
 	// persister (Persister.WithContent) instead of leaving that to the engine
 	PersisterContent bool `json:"persister_content,omitempty"`
+	// Debug switches on engine.Config.StateDebug/EngineDebug and installs an engine.SimpleDebug that writes to a
+	// counting sink (observational features: nothing a client sees may depend on them)
+	Debug bool `json:"debug,omitempty"`
 }
+
+// DebugSink counts what the engine debugger writes.
+type DebugSink struct{ N int }
+
+func (d *DebugSink) Write(p []byte) (int, error) { d.N += len(p); return len(p), nil }
 
 func (c Config) Engine() engine.Config {
 	return engine.Config{OutputSize: c.OutputSize, CacheSize: c.CacheSize, FlagCount: c.FlagCount, Language: c.Language,
-		SessionId: c.SessionId, Root: c.Root, MenuSeparator: c.MenuSeparator, ResetOnEmptyInput: c.ResetOnEmptyInput}
+		SessionId: c.SessionId, Root: c.Root, MenuSeparator: c.MenuSeparator, ResetOnEmptyInput: c.ResetOnEmptyInput,
+		StateDebug: c.Debug, EngineDebug: c.Debug}
 }
 
 // StateSnap / CacheSnap are comparable copies of the exported session state.
@@ -292,6 +301,7 @@ type LongLived struct {
 	// PreFlush: call Flush before the very first Exec (C17: output asked before anything was executed)
 	PreFlush bool
 	nreq     int
+	DebugOut DebugSink
 }
 
 func NewLongLived(a *App, cfg Config) *LongLived {
@@ -304,6 +314,9 @@ func NewLongLived(a *App, cfg Config) *LongLived {
 	d.En = engine.NewEngine(cfg.Engine(), d.Res).WithState(d.St).WithMemory(d.Ca)
 	if cfg.First && a.Funcs["_first"] != nil {
 		d.En = d.En.WithFirst(d.Res.FirstFunc())
+	}
+	if cfg.Debug {
+		d.En = d.En.WithDebug(engine.NewSimpleDebug(&d.DebugOut))
 	}
 	return d
 }
@@ -372,6 +385,7 @@ type PerRequest struct {
 	// BeforeFinish, if set, is called between Flush and Finish (C12 markers)
 	BeforeFinish func()
 	AfterFinish  func()
+	DebugOut     DebugSink
 }
 
 func NewPerRequest(a *App, cfg Config, b *Backend) *PerRequest {
@@ -400,6 +414,9 @@ func (d *PerRequest) Request(input []byte) *Obs {
 		en := engine.NewEngine(d.Cfg.Engine(), d.Res).WithPersister(pe)
 		if d.Cfg.First && d.Res.App.Funcs["_first"] != nil {
 			en = en.WithFirst(d.Res.FirstFunc())
+		}
+		if d.Cfg.Debug {
+			en = en.WithDebug(engine.NewSimpleDebug(&d.DebugOut))
 		}
 		if d.PreFlush {
 			var buf bytes.Buffer
